@@ -98,6 +98,7 @@ const (
 	FaultNilNil         = "nil_without_error"         // lookups: no record and no error
 	FaultTemporary      = "temporary_error"           // the call fails with a Temporary()/Timeout() error that wraps no context error
 	FaultNoIdentifier   = "stored_without_identifier" // CreateAuthRequest: the record is written, no error, but the request handed back has no id
+	FaultNilPtrError    = "nil_pointer_error"         // the error returned is a non-nil interface holding a nil pointer of the storage's own error type
 	FaultRecordAndError = "record_and_error"          // lookups: a usable (possibly stale) record comes back together with an error
 	FaultTypedNil       = "typed_nil_and_error"       // AuthRequestByID: a nil pointer inside the interface together with an error
 	FaultPanicString    = "panics_with_a_string"      // the storage itself crashes: panic("...") / log.Panicf
@@ -358,8 +359,17 @@ func (temporaryError) Timeout() bool   { return true }
 func (temporaryError) Temporary() bool { return true }
 
 // errFor returns the error a failing call reports for the given fault kind.
+// ptrError is an error type with a pointer receiver that reads a field: calling Error() on a nil *ptrError
+// dereferences nil (fmt recovers that and prints <nil>; a direct call does not).
+type ptrError struct{ msg string }
+
+func (e *ptrError) Error() string { return e.msg }
+
 func errFor(kind string) error {
 	switch kind {
+	case FaultNilPtrError:
+		var e *ptrError
+		return e
 	case FaultPanicString:
 		panic(PanicMarker + ": connection state corrupt")
 	case FaultPanicError:
@@ -471,7 +481,7 @@ func (w *World) GetCA(ctx context.Context) (*key.CertificateAndKey, error) {
 
 func (w *World) keyFault(f string, base *key.CertificateAndKey) (*key.CertificateAndKey, error) {
 	switch f {
-	case FaultError, FaultTimeout, FaultTemporary, FaultPoolClosed, FaultCtx, FaultPanicString, FaultPanicError:
+	case FaultError, FaultTimeout, FaultTemporary, FaultPoolClosed, FaultCtx, FaultPanicString, FaultPanicError, FaultNilPtrError:
 		return nil, errFor(f)
 	case FaultNilRecord:
 		return nil, nil
